@@ -52,11 +52,16 @@ PartAnnNames(t, part) ==
   ELSE UNION ({AnnNames(t.params[i].anns) : i \in {j \in 1..Len(t.params) : t.params[j].name = part}}
               \cup {AnnNames(t.tags[i].anns) : i \in {j \in 1..Len(t.tags) : t.tags[j].name = part}})
 
+PartAnnsDeep(t, part) ==
+  IF part = "id" THEN {t.anns}
+  ELSE {t.params[i].anns : i \in {j \in 1..Len(t.params) : t.params[j].name = part}}
+       \cup {t.tags[i].anns : i \in {j \in 1..Len(t.tags) : t.tags[j].name = part}}
+
 Speaks(c, r) ==
   CASE c = "LineIsFaultLine" -> r.stream = "fault" /\ r.alone /\ r.single
     [] c = "CaretInLine"     -> r.current /\ r.alone /\ \E i \in 1..Len(r.diags) : r.diags[i].hasmarker
     [] c = "InBlock"         -> r.alone /\ r.diags # <<>>
-    [] c = "IgnoredNotHalfApplied" -> r.ign # <<>>
+    [] c = "IgnoredNotHalfApplied" -> r.ign # <<>> \/ r.hasref
     [] c = "FatalIffDiagnosed" -> r.fatal.checked
     [] OTHER -> TRUE
 
@@ -84,8 +89,12 @@ C11(c, r) ==
          Speaks(c, r) => /\ r.fatal.exited <=> (r.fatal.ndiag > 0)
                          /\ r.diags # <<>> => r.fatal.exited
     [] c = "IgnoredNotHalfApplied" ->
-         \A i \in 1..Len(r.ign) : \A j \in 1..Len(r.ign[i].names) :
-            r.ign[i].names[j] \notin PartAnnNames(r.tree, r.ign[i].part)
+         /\ \A i \in 1..Len(r.ign) : \A j \in 1..Len(r.ign[i].names) :
+               r.ign[i].names[j] \notin PartAnnNames(r.tree, r.ign[i].part)
+         \* a rejected continuation line leaves the annotations of its part -- names, order AND option values --
+         \* exactly as the same block has them when it ends just before that line (hasref / refpart / reftree:
+         \* the real parser's tree of the block cut off there)
+         /\ r.hasref => PartAnnsDeep(r.tree, r.refpart) = PartAnnsDeep(r.reftree, r.refpart)
 
 ClauseNames == {"NoRaise", "OthersSurvive", "LineIsFaultLine", "CaretInLine", "InBlock", "Counted",
                 "FatalIffDiagnosed", "IgnoredNotHalfApplied"}
@@ -110,7 +119,8 @@ Detail(c, r) ==
            ELSE IF ~InBlockD(r, d) THEN "outside"
            ELSE IF Rel(r, d) = Len(r.src) - 1 /\ ~r.closealone THEN "closetext"     \* the line shared with the end token
            ELSE "inblock")
-  ELSE FaultKind(r) \o "/-/-"
+  ELSE FaultKind(r) \o "/-/" \o (IF c = "IgnoredNotHalfApplied" /\ r.hasref /\ PartAnnsDeep(r.tree, r.refpart) # PartAnnsDeep(r.reftree, r.refpart)
+                                THEN (IF r.refdup THEN "options-of-repeated-annotation" ELSE "continuation-line") ELSE "-")
 
 \* drift: the modelled parser's diagnostics (line, kind) against the real ones
 ModelAgrees(r) ==
